@@ -165,7 +165,7 @@ var (
 	rcAuth       = []byte{0x00, 0x18, 0x19}
 )
 
-var allTypes = []byte{1, 2, 3, 4, 5, 6, 7, 8, 9, 10, 11, 12, 13, 14, 15}
+var allTypes = []byte{1, 1, 2, 2, 3, 3, 3, 3, 4, 5, 6, 7, 8, 8, 9, 10, 11, 12, 13, 14, 14, 15}
 
 func dirOf(t byte, rt *rapid.T) refmqtt.Direction {
 	switch t {
